@@ -10,6 +10,7 @@ from . import ser
 
 NLEAVES = 11
 REGS = ("a", "b", "c", "d")
+MREG = "r"   # the 2W-bit register of the behaviour's persistent mapper
 
 
 def make_leaves(W):
@@ -71,9 +72,18 @@ def make_envs(W, calls, rng, cap=16):
     return envs, exhaustive
 
 
-def perform(call, P):
+def perform(call, P, M=None, R=None):
     from amoco.cas import expressions as X
     a = call["act"]
+    if a == "setsf":
+        x = P[call["i"] - 1]
+        return x.signed() if call["sf"] == 1 else x.unsigned()
+    if a == "mset":
+        loc = R[call["pos"]:call["pos"] + call["n"]]
+        M[loc] = P[call["j"] - 1]
+        return M(R[call["pos"]:call["pos"] + call["n"]])
+    if a == "mget":
+        return M(R)
     if a == "bin":
         l, r = P[call["i"] - 1], P[call["j"] - 1]
         s = call["s"]
@@ -173,7 +183,13 @@ def replay(tid, beh, seed, threshold):
     conf.Cas.complexity = threshold
     try:
         P = make_leaves(W)
+        from amoco.cas.expressions import reg as _reg
+        M = mapper()
+        R = _reg(MREG, 2 * W)
         envs, exhaustive = make_envs(W, calls, rng)
+        uses_m = any(c["act"] in ("mset", "mget") for c in calls)
+        for env in envs:
+            env[MREG] = (rng.getrandbits(2 * W) if uses_m else 0)
         last = [json.dumps(ser.tree(x), sort_keys=True) for x in P]
         ev = []
         raised = False
@@ -186,7 +202,7 @@ def replay(tid, beh, seed, threshold):
                 e["lc"] = 1 if (ser.kind(l) == "cst" and (l.v >> (l.size - 1)) == 0) else 0
                 e["rc"] = 1 if (ser.kind(r) == "cst" and (r.v >> (r.size - 1)) == 0) else 0
             try:
-                res = perform(call, P)
+                res = perform(call, P, M, R)
                 e["raised"] = ""
             except Exception as ex:
                 e["raised"] = exc_str(ex)
@@ -242,6 +258,7 @@ def replay(tid, beh, seed, threshold):
                         m = mapper()
                         for r in REGS:
                             m[P[REGS.index(r)]] = cst(env[r], W)
+                        m[R] = cst(env[MREG], 2 * W)
                         v = m(x)
                         k = ser.kind(v)
                         rec = {"h": h + 1, "k": k if k in ("cst",) else "sym", "w": v.size}
@@ -261,6 +278,7 @@ def replay(tid, beh, seed, threshold):
                     live.append({"h": h + 1, "tree": t})
             ev.append({"act": "frame", "raised": "", "live": live})
         return {"t": tid, "w": W, "thr": threshold, "exhaustive_envs": 1 if exhaustive else 0,
-                "envs": [dict((r, ser.bits(env[r], W)) for r in REGS) for env in envs], "ev": ev}
+                "envs": [dict([(r, ser.bits(env[r], W)) for r in REGS] + [(MREG, ser.bits(env[MREG], 2 * W))])
+                         for env in envs], "ev": ev}
     finally:
         conf.Cas.complexity = old_thr
